@@ -48,6 +48,10 @@ def locked_make(targets, timeout=1500):
         with open(ROOT / "coq" / ".lock", "a") as lk0:
             fcntl.flock(lk0, fcntl.LOCK_SH)
             subprocess.run(["rsync", "-a", "--delete", "--exclude", ".lock", "--exclude", "theories/Gen/", str(ROOT / "coq") + "/", str(COQ) + "/"], check=True)
+            # generated tables: start from /repo's (fallback when a shape is not recognised), never overwrite this tree's own
+            (COQ / "theories" / "Gen").mkdir(parents=True, exist_ok=True)
+            subprocess.run(["rsync", "-a", "--ignore-existing", "--include", "*.v", "--exclude", "*", str(ROOT / "coq" / "theories" / "Gen") + "/",
+                            str(COQ / "theories" / "Gen") + "/"], check=True)
     (COQ / ".lock").touch()
     with open(COQ / ".lock") as lk:
         fcntl.flock(lk, fcntl.LOCK_EX)
